@@ -802,51 +802,54 @@ package spdxexp
 //@   ghostparam x Tree
 //@   requires okNest(left) && okNest(right)
 //@   modifies nothing
-//@   ensures[C06,C10] inNest(result, x) <==> (len(left) >= 1 && len(right) >= 1 && (old(inNest(left, x)) || old(inNest(right, x))))
+//@   ensures[C06,C10,grp=leaf] inNest(result, x) <==> (len(left) >= 1 && len(right) >= 1 && (old(inNest(left, x)) || old(inNest(right, x))))
 //@   ensures[C03] okNest(result) && freshNest(result) && distinctNest(result)
 //@   ensures[C03] len(left) >= 1 && len(right) >= 1 ==> len(result) >= 1
-//@   ensures[C01,C10] den(result) <==> (old(den(left)) && old(den(right)))
+//@   ensures[C01,C10,grp=den] den(result) <==> (old(den(left)) && old(den(right)))
 //@   loop 0:
 //@     invariant[C03] okNest(result) && freshNest(result) && distinctNest(result)
 //@     invariant[C03] len(left) >= 1 && $i >= 1 ==> len(result) >= 1
-//@     invariant[C01,C10] $i <= len(right) && (den(result) <==> (old(den(left)) && old(denP(right, $i))))
-//@     invariant[C06,C10] inNest(result, x) <==> ($i >= 1 && len(left) >= 1 && (old(inNest(left, x)) || old(inNestP(right, $i, x))))
+//@     invariant[C01,C06,C10] $i <= len(right)
+//@     invariant[C01,C10,scoped,grp=den] den(result) <==> (old(den(left)) && old(denP(right, $i)))
+//@     invariant[C06,C10,scoped,grp=leaf] inNest(result, x) <==> ($i >= 1 && len(left) >= 1 && (old(inNest(left, x)) || old(inNestP(right, $i, x))))
 //@   loop 1:
 //@     invariant[C03] okNest(result) && freshNest(result) && distinctNest(result)
 //@     invariant[C03] len(left) >= 1 && ($i0 >= 1 || $i >= 1) ==> len(result) >= 1
-//@     invariant[C01,C10] $i <= len(left) && $i0 < len(right) && r == old(right[$i0]) && (den(result) <==> ((old(den(left)) && old(denP(right, $i0))) || (old(denP(left, $i)) && old(all(right[$i0])))))
-//@     invariant[C06,C10] inNest(result, x) <==> (($i0 >= 1 && len(left) >= 1 && (old(inNest(left, x)) || old(inNestP(right, $i0, x)))) || ($i >= 1 && (old(inNestP(left, $i, x)) || old(inAlt(right[$i0], x)))))
-//@   assert[C06,C10] after append#0: inAlt(ret, x) <==> old(inAlt(left[$i1], x))
-//@   assert[C06,C10] after append#1: inAlt(ret, x) <==> (old(inAlt(left[$i1], x)) || old(inAlt(right[$i0], x)))
-//@   assert[C06,C10] after append#2: inNest(ret, x) <==> (inNest(result, x) || inAlt(tmp, x))
-//@   assert[C06,C10] after append#2: stepLeftIn: old(inNestP(left, $i1 + 1, x)) <==> (old(inNestP(left, $i1, x)) || old(inAlt(left[$i1], x)))
-//@   assert[C01,C10] after append#0: len(ret) == len(l) && (all(ret) <==> old(all(left[$i1])))
-//@   assert[C01,C10] after append#1: all(ret) <==> (old(all(left[$i1])) && old(all(right[$i0])))
-//@   assert[C01,C10] after append#2: den(ret) <==> (den(result) || all(tmp))
-//@   assert[C01,C10] after append#2: stepLeft: old(denP(left, $i1 + 1)) <==> (old(denP(left, $i1)) || old(all(left[$i1])))
+//@     invariant[C01,C06,C10] $i <= len(left) && $i0 < len(right) && r == old(right[$i0])
+//@     invariant[C01,C10,scoped,grp=den] (den(result) <==> ((old(den(left)) && old(denP(right, $i0))) || (old(denP(left, $i)) && old(all(right[$i0])))))
+//@     invariant[C06,C10,scoped,grp=leaf] inNest(result, x) <==> (($i0 >= 1 && len(left) >= 1 && (old(inNest(left, x)) || old(inNestP(right, $i0, x)))) || ($i >= 1 && (old(inNestP(left, $i, x)) || old(inAlt(right[$i0], x)))))
+//@   assert[C06,C10,scoped,grp=leaf] after append#0: inAlt(ret, x) <==> old(inAlt(left[$i1], x))
+//@   assert[C06,C10,scoped,grp=leaf] after append#1: inAlt(ret, x) <==> (old(inAlt(left[$i1], x)) || old(inAlt(right[$i0], x)))
+//@   assert[C06,C10,scoped,grp=leaf] after append#2: inNest(ret, x) <==> (inNest(result, x) || inAlt(tmp, x))
+//@   assert[C06,C10,scoped,grp=leaf] after append#2: stepLeftIn: old(inNestP(left, $i1 + 1, x)) <==> (old(inNestP(left, $i1, x)) || old(inAlt(left[$i1], x)))
+//@   assert[C01,C10,scoped,grp=den] after append#0: len(ret) == len(l) && (all(ret) <==> old(all(left[$i1])))
+//@   assert[C01,C10,scoped,grp=den] after append#1: all(ret) <==> (old(all(left[$i1])) && old(all(right[$i0])))
+//@   assert[C01,C10,scoped,grp=den] after append#2: den(ret) <==> (den(result) || all(tmp))
+//@   assert[C01,C10,scoped,grp=den] after append#2: stepLeft: old(denP(left, $i1 + 1)) <==> (old(denP(left, $i1)) || old(all(left[$i1])))
 //@ end
 
 //@ func mergeTerms
 //@   ghostparam x Tree
 //@   requires okNest(left) && okNest(right)
-//@   ensures[C06,C10] inNest(result, x) <==> (old(inNest(left, x)) || old(inNest(right, x)))
+//@   ensures[C06,C10,grp=leaf] inNest(result, x) <==> (old(inNest(left, x)) || old(inNest(right, x)))
 //@   requires[C01,C10] len(left) == 1 && len(right) == 1
 //@   modifies arr(left), arrs(left)
-//@   ensures[C01,C10] den(result) <==> (old(den(left)) && old(den(right)))
+//@   ensures[C01,C10,grp=den] den(result) <==> (old(den(left)) && old(den(right)))
 //@   ensures[C03] okNest(result) && result == left
 //@   ensures[C03] forall i :: 0 <= i && i < len(left) ==> fresh(result[i]) || arr(result[i]) == arr(old(left[i]))
 //@   loop 0:
 //@     invariant[C03] okNest(left) && okNest(right)
 //@     invariant[C03] forall i :: 0 <= i && i < len(left) ==> fresh(left[i]) || arr(left[i]) == arr(old(left[i]))
-//@     invariant[C06,C10] $i == 0 ==> (inAlt(left[0], x) <==> old(inAlt(left[0], x))) && (inAlt(right[0], x) <==> old(inAlt(right[0], x)))
-//@     invariant[C06,C10] $i >= 1 ==> (inAlt(left[0], x) <==> (old(inAlt(left[0], x)) || old(inAlt(right[0], x))))
-//@     invariant[C01,C10] $i == 0 ==> (all(left[0]) <==> old(all(left[0]))) && (all(right[0]) <==> old(all(right[0])))
-//@     invariant[C01,C10] $i >= 1 ==> (all(left[0]) <==> (old(all(left[0])) && old(all(right[0]))))
+//@     invariant[C06,C10,scoped,grp=leaf] $i == 0 ==> (inAlt(left[0], x) <==> old(inAlt(left[0], x))) && (inAlt(right[0], x) <==> old(inAlt(right[0], x)))
+//@     invariant[C06,C10,scoped,grp=leaf] $i >= 1 ==> (inAlt(left[0], x) <==> (old(inAlt(left[0], x)) || old(inAlt(right[0], x))))
+//@     invariant[C01,C10,scoped,grp=den] $i == 0 ==> (all(left[0]) <==> old(all(left[0]))) && (all(right[0]) <==> old(all(right[0])))
+//@     invariant[C01,C10,scoped,grp=den] $i >= 1 ==> (all(left[0]) <==> (old(all(left[0])) && old(all(right[0]))))
 //@   loop 1:
-//@     invariant[C06,C10] $i == 0 ==> (inAlt(left[0], x) <==> old(inAlt(left[0], x))) && (inAlt(r, x) <==> old(inAlt(right[0], x)))
-//@     invariant[C06,C10] $i >= 1 ==> (inAlt(left[0], x) <==> (old(inAlt(left[0], x)) || old(inAlt(right[0], x))))
-//@     invariant[C01,C10] $i0 == 0 && ($i == 0 ==> (all(left[0]) <==> old(all(left[0]))) && (all(r) <==> old(all(right[0]))))
-//@     invariant[C01,C10] $i >= 1 ==> (all(left[0]) <==> (old(all(left[0])) && old(all(right[0]))))
+//@     invariant[C06,C10,scoped,grp=leaf] $i == 0 ==> (inAlt(left[0], x) <==> old(inAlt(left[0], x))) && (inAlt(r, x) <==> old(inAlt(right[0], x)))
+//@     invariant[C06,C10,scoped,grp=leaf] $i >= 1 ==> (inAlt(left[0], x) <==> (old(inAlt(left[0], x)) || old(inAlt(right[0], x))))
+//@     invariant[C01,C06,C10] $i0 == 0
+//@     invariant[C01,C10,scoped,grp=den] $i == 0 ==> (all(left[0]) <==> old(all(left[0]))) && (all(r) <==> old(all(right[0])))
+//@     invariant[C01,C10,scoped,grp=den] $i >= 1 ==> (all(left[0]) <==> (old(all(left[0])) && old(all(right[0]))))
 //@     invariant[C03] okNest(left) && okNest(right) && okAlt(r)
 //@     invariant[C03] forall i :: 0 <= i && i < len(left) ==> fresh(left[i]) || arr(left[i]) == arr(old(left[i]))
 //@ end
